@@ -6,6 +6,7 @@
 -/
 import EV.Model.FastMerkle
 import EV.Proofs.FastMerkle
+import EV.Model.Sha256
 namespace EV.Props.C18
 open EV.FastMerkle
 
@@ -53,6 +54,27 @@ theorem fast_commits (comb : α → α → α) (zero : α) (l₁ l₂ : List α)
     l₁ = l₂ ∨ Collision comb := by
   rw [fast_eq_level comb zero l₁ h₁, fast_eq_level comb zero l₂ (hlen ▸ h₁)] at hroot
   exact root_commits comb zero l₁ l₂ hlen (Option.some.inj hroot)
+
+/-! ### the instance the correspondence run executes
+
+  The driver evaluates `fast` with `comb := Sha256.midstate` (the SHA-256 compression of `l ‖ r` from the initial
+  state, the model's transcription of `sha256::Midstate` after one block) and `zero := 0^32`; the K op `fmr` compares
+  THAT function with the real `fast_merkle_root`, and the K op `sha` ties `Sha256.*` to the real SHA-256. The
+  theorems above hold for every `comb`; here they are at the one that runs. -/
+
+/-- for every list of at most 2^31 leaves the coded loop with the SHA-256 midstate as compression function returns
+    the root of the definitional tree over that same function -/
+theorem fast_eq_level_sha256 (leaves : List EV.Bytes) (h : leaves.length ≤ 2^31) :
+    fast EV.Sha256.midstate (List.replicate 32 0) leaves
+      = some (levelRoot EV.Sha256.midstate (List.replicate 32 0) leaves) :=
+  fast_eq_level _ _ leaves h
+
+/-- and equal roots of equally long lists mean equal lists or an explicit collision of the SHA-256 compression
+    function on two 64-byte blocks -/
+theorem fast_commits_sha256 (l₁ l₂ : List EV.Bytes) (h₁ : l₁.length ≤ 2^31) (hlen : l₁.length = l₂.length)
+    (hroot : fast EV.Sha256.midstate (List.replicate 32 0) l₁ = fast EV.Sha256.midstate (List.replicate 32 0) l₂) :
+    l₁ = l₂ ∨ Collision EV.Sha256.midstate :=
+  fast_commits _ _ l₁ l₂ h₁ hlen hroot
 
 /-- non-vacuity: a concrete 5-leaf instance over `Nat` with a non-commutative `comb` -/
 example : fast (fun a b => 2 * a + 3 * b + 1) 0 [1, 2, 3, 4, 5] = some 168 := by decide
